@@ -530,21 +530,49 @@ class ClauseResult:
         self.inputs = None
 
 
+_JOBS = []
+
+
+def _discharge(i):
+    """worker (forked after the paths were explored, so it sees _JOBS)"""
+    name, pc, goal, text, notes, inputs, extra, timeout_ms = _JOBS[i]
+    res = smt.prove(pc, goal, timeout_ms, quick_refute=".CANARY[" in name)
+    conc = None
+    if res.verdict == smt.REFUTED and res.model is not None:
+        try:
+            conc = {k: concretize(res.model, v) for k, v in inputs.items()}
+            if extra is not None:
+                conc["__extra__"] = extra(res.model)
+        except Exception as e:      # model incomplete for some input
+            conc = {"__error__": repr(e)}
+    return {"i": i, "name": name, "verdict": res.verdict,
+            "backend": res.backend, "seconds": res.seconds, "text": text,
+            "notes": notes, "inputs": conc,
+            "raw": res.raw or ("" if res.model is None else str(res.model)[:4000]),
+            "candidate": getattr(res, "candidate", False)}
+
+
 def verify(contract, report, max_paths=5000, options=None, replay=None,
-           timeout_ms=None, quiet=False):
-    """explore every path of the function body, discharge every obligation.
-    `replay(name, model, inputs, notes)` is called for a refuted clause."""
+           timeout_ms=None, quiet=False, procs=None):
+    """explore every path of the function body (in this process), then
+    discharge every obligation in a pool of forked workers.
+    `replay(name, inputs, notes)` is called for a refuted clause with the
+    concretised inputs of the counter-model."""
+    import multiprocessing as mp
+    import os
+    global _JOBS
     pyfunc = contract.target
     _, src = function_ast(pyfunc)
     report.function(contract.qualname, src)
-    work = [[]]
-    clauses = {}
-    cache = {}
-    npaths = nnormal = 0
-    t0 = time.time()
     opts = dict(contract.options)
     opts.update(options or {})
-    cover_done = False
+    clauses = {}
+    npaths = nnormal = 0
+    t0 = time.time()
+    procs = procs or int(os.environ.get("VERIF_PROCS", "14"))
+    work = [[]]
+    jobs, keys = [], set()
+    cover_pc = None
     while work:
         dec = work.pop()
         ex = Executor(dec, REGISTRY, dict(opts))
@@ -554,42 +582,51 @@ def verify(contract, report, max_paths=5000, options=None, replay=None,
         except PathEnd:
             pass
         except OutOfReach as e:
-            report.out_of_reach(f"{contract.qualname}: {e}")
+            report.out_of_reach(f"{contract.qualname}: {e} (path {dec})")
             return None
         npaths += 1
         nnormal += ex.normal_paths
+        work.extend(ex.new_alternatives)
         if npaths > max_paths:
             report.out_of_reach(f"{contract.qualname}: more than {max_paths} paths")
             return None
-        work.extend(ex.new_alternatives)
-        if not cover_done and hasattr(ex, "requires_pc"):
-            cover_done = True
-            report.cover(f"{contract.short}.requires-satisfiable",
-                         smt.check_sat(ex.requires_pc, 5000, want_model=False))
+        if cover_pc is None and hasattr(ex, "requires_pc"):
+            cover_pc = ex.requires_pc
         for name, pc, goal, text, notes in ex.obligations:
-            cr = clauses.setdefault(name, ClauseResult(name))
-            cr.text = cr.text or text
-            key = (tuple(p.get_id() for p in pc), goal.get_id())
-            if key in cache:
+            key = (name, tuple(p.hash() for p in pc), goal.hash())
+            if key in keys:
                 continue
-            res = smt.prove(pc, goal, timeout_ms,
-                            quick_refute=".CANARY[" in name)
-            cache[key] = res
-            cr.queries += 1
-            cr.seconds += res.seconds
-            if res.verdict == smt.REFUTED and cr.verdict != smt.REFUTED:
-                cr.verdict = smt.REFUTED
-                cr.model, cr.backend, cr.raw = res.model, res.backend, res.raw
-                cr.notes = notes
-                cr.inputs = getattr(ex, "inputs", None)
-                cr.ex = ex
-            elif res.verdict == smt.UNKNOWN and cr.verdict == smt.PROVED:
-                cr.verdict = smt.UNKNOWN
-                cr.raw = res.raw
-                cr.backend = res.backend
-            elif res.verdict == smt.PROVED and res.backend != cr.backend and \
-                    cr.verdict == smt.PROVED:
-                cr.backend = res.backend
+            keys.add(key)
+            jobs.append((name, pc, goal, text, notes,
+                         dict(getattr(ex, "inputs", {})),
+                         getattr(ex, "replay_extra", None), timeout_ms))
+    t_explore = time.time() - t0
+    if cover_pc is not None:
+        report.cover(f"{contract.short}.requires-satisfiable",
+                     smt.check_sat(cover_pc, 5000, want_model=False,
+                                   use_fallback=False))
+    _JOBS = jobs
+    ctx = mp.get_context("fork")
+    with ctx.Pool(min(procs, max(1, len(jobs)))) as pool:
+        results = list(pool.imap_unordered(_discharge, range(len(jobs)),
+                                           chunksize=1))
+    _JOBS = []
+    results.sort(key=lambda r: r["i"])
+    for ob in results:
+        cr = clauses.setdefault(ob["name"], ClauseResult(ob["name"]))
+        cr.text = cr.text or ob["text"]
+        cr.queries += 1
+        cr.seconds += ob["seconds"]
+        if ob["verdict"] == smt.REFUTED and cr.verdict != smt.REFUTED:
+            cr.verdict = smt.REFUTED
+            cr.backend, cr.raw = ob["backend"], ob["raw"]
+            cr.notes, cr.inputs = ob["notes"], ob["inputs"]
+            cr.candidate = ob["candidate"]
+        elif ob["verdict"] == smt.UNKNOWN and cr.verdict == smt.PROVED:
+            cr.verdict, cr.raw, cr.backend = smt.UNKNOWN, ob["raw"], ob["backend"]
+        elif ob["verdict"] == smt.PROVED and cr.verdict == smt.PROVED \
+                and ob["backend"] != "trivial":
+            cr.backend = ob["backend"]
     if nnormal == 0 and contract.ensures:
         report.broken.append(f"{contract.short}: no path reaches a normal "
                              f"return (vacuous)")
@@ -597,15 +634,16 @@ def verify(contract, report, max_paths=5000, options=None, replay=None,
     report.extra["vc_queries"] = report.extra.get("vc_queries", 0) + \
         sum(c.queries for c in clauses.values())
     for name, cr in clauses.items():
-        res = smt.Result(cr.verdict, cr.backend, cr.seconds, cr.model, cr.raw)
+        res = smt.Result(cr.verdict, cr.backend, cr.seconds, cr.inputs, cr.raw)
         if ".CANARY[" in name:
             report.canary(name, res)
             continue
         rp = None
-        if replay is not None and cr.verdict == smt.REFUTED:
-            rp = (lambda m, cr=cr: replay(cr.name, m, cr.inputs, cr.notes))
+        if replay is not None and cr.verdict == smt.REFUTED and \
+                cr.inputs is not None and "__error__" not in cr.inputs:
+            rp = (lambda m, cr=cr: replay(cr.name, cr.inputs, cr.notes))
         report.obligation(name, res, func=contract.qualname, text=cr.text,
-                          replay=rp)
+                          replay=rp, candidate=getattr(cr, "candidate", False))
     if not quiet:
         print(f"  verified {contract.qualname}: {npaths} paths, "
               f"{len(clauses)} clauses, {time.time() - t0:.1f}s")
